@@ -762,8 +762,53 @@ class _Rechunk:
 
 def decode_chunks(spec):
     if isinstance(spec, dict) and "dict" in spec:
-        return {int(k): v for k, v in spec["dict"].items()}
+        return {int(k): (tuple(v) if isinstance(v, list) else v) for k, v in spec["dict"].items()}
+    if isinstance(spec, (str, int)):
+        return spec
     return tuple(tuple(c) if isinstance(c, list) else c for c in spec)
+
+
+@op("rechunk_auto", "rechunk")
+class _RechunkAuto:
+    """Spec forms that go through auto-chunking: 'auto', byte strings, per-axis
+    mixtures with None/-1/ints, block_size_limit, balance=True."""
+
+    @staticmethod
+    def gen(D_, vals):
+        i = _pick(D_, vals, lambda v: v.ndim >= 1 and v.size > 0)
+        if i is None:
+            return None
+        v = vals[i]
+        form = D_.weighted([("auto", 3), ("bytes", 2), ("mixed", 4), ("dict", 2), ("balance", 2)])
+        s = {"op": "rechunk_auto", "args": [i]}
+        if form == "auto":
+            s["chunks"] = "auto"
+        elif form == "bytes":
+            s["chunks"] = D_.choice(["16B", "64B", "256B", "1kiB"])
+        elif form == "mixed":
+            s["chunks"] = [D_.weighted([("auto", 4), (-1, 2), (None, 2), (D_.int(1, max(1, n)), 2)]) for n in v.shape]
+        elif form == "dict":
+            axes = D_.subset(range(v.ndim), 1)
+            s["chunks"] = {"dict": {str(ax): D_.weighted([("auto", 3), (-1, 1), (None, 1), (D_.int(1, max(1, v.shape[ax])), 2)]) for ax in axes}}
+        else:
+            s["chunks"] = [D_.int(1, max(1, n)) for n in v.shape]
+            s["balance"] = True
+        if form != "balance" and D_.chance(3, 4):
+            s["limit"] = D_.choice([16, 64, 256, 1024])
+        return s
+
+    @staticmethod
+    def np(s, a):
+        return a[0]
+
+    @staticmethod
+    def da(s, a):
+        kw = {}
+        if s.get("limit") is not None:
+            kw["block_size_limit"] = s["limit"]
+        if s.get("balance"):
+            kw["balance"] = True
+        return a[0].rechunk(decode_chunks(s["chunks"]), **kw)
 
 
 # ---- reductions -------------------------------------------------------------
@@ -1093,7 +1138,7 @@ def has_zero_axis(prog):
 # generation
 
 
-def program_strategy(min_stmts=1, max_stmts=6, max_leaves=2, family_weights=None, op_filter=None, leaf_kinds=("numpy",), max_rank=3, max_len=8, dtypes=None, n_outputs=(1, 2), max_size=400, first_ops=None):
+def program_strategy(min_stmts=1, max_stmts=6, max_leaves=2, family_weights=None, op_filter=None, leaf_kinds=("numpy",), max_rank=3, max_len=8, dtypes=None, n_outputs=(1, 2), max_size=400, first_ops=None, ensure_ops=None):
     """Hypothesis strategy yielding (program, stats) with stats = {"discarded": n}."""
     fw = dict(FAMILY_WEIGHTS if family_weights is None else family_weights)
     fams = {f: [n for n in names if op_filter is None or op_filter(n)] for f, names in ops_by_family().items()}
@@ -1123,10 +1168,13 @@ def program_strategy(min_stmts=1, max_stmts=6, max_leaves=2, family_weights=None
         discarded = 0
         target = D_.int(min_stmts, max_stmts)
         attempts = 0
+        forced_at = D_.int(0, target - 1) if ensure_ops else None
         while len(stmts) < target and attempts < target * 4:
             attempts += 1
             if first_ops and not stmts:
                 name = D_.choice(first_ops)
+            elif forced_at is not None and len(stmts) == forced_at and not any(t["op"] in ensure_ops for t in stmts):
+                name = D_.choice(list(ensure_ops))
             else:
                 fam = D_.weighted([(f, fw[f]) for f in sorted(fams)])
                 name = D_.choice(fams[fam])
